@@ -25,7 +25,7 @@ LEVEL = "model_checking"
 EXHAUSTIVE = True
 RULE = (
     "A: {Geometry, Weighted, Extruded, Porous, ExtrudedPorous} x weight forms {scalar, ndarray, (Image for ExtrudedPorous: all 3x3 "
-    "porosity/depth type pairs)} x shapes (1-D..3-D) x data container {ndarray, Image} x payload {scalar, vector, series, vector series} x "
+    "porosity/depth type pairs)} x shapes (1-D..3-D) x data container {ndarray, Fortran-ordered ndarray, Image with the geometry's dimensions, Image with default dimensions} x payload {scalar, vector, series, vector series} x "
     "resolution {native, refined by every (fx,fy,..) in {1,2,3}^d, coarsened by every divisor tuple, mixed (each axis refined by 2 or 3, coarsened by a divisor, or kept; at least one of each)}; data = complete impulse basis + "
     "pair combinations (1,1),(2,-3); plus normalize(img, ref). B: per geometry object every sequence of integrate() calls over "
     "{native, coarser, finer, other-coarser} x {array, Image} up to length 3 (thorough 5), and BFS over the geometry's hidden state to a "
@@ -140,10 +140,18 @@ def wrap(arr, shape_native, payload, as_image, scale=0):
     """Hand the data to integrate() as a raw array or as an Image at its own resolution."""
     if not as_image:
         return arr
+    if as_image == "F":
+        # the same logical array stored column-major (what a transposed view or Fortran-ordered
+        # reader hands over)
+        return np.asfortranarray(arr)
     import darsia
 
     dim = len(shape_native)
     kw = dict(space_dim=dim, dimensions=[VS[a] * 2.0**scale * shape_native[a] for a in range(dim)], scalar=payload in ("scalar", "series"))
+    if as_image == "default-dims":
+        # an Image wrapped around the array without physical dimensions (darsia's defaults): the
+        # geometry, not the image, defines the physical extent
+        del kw["dimensions"]
     if payload in ("series", "vector-series"):
         kw["series"] = True
         kw["time"] = [0.0, 1.0, 2.0]
@@ -239,7 +247,7 @@ def run_integrate(case, r):
         n = int(np.prod(full))
         cellbase = f"C03/integrate/{wclass(wform)}/{res}/payload={payload}"
         rtol = RTOL_RESAMPLED if (array_weight and res != "native") else RTOL
-        for as_image in (False, True):
+        for as_image in (False, True, "default-dims", "F"):
             g = fresh()
             okb, okl, bad = True, True, None
             vals = {}
@@ -258,7 +266,7 @@ def run_integrate(case, r):
                 if not close(got, want, rtol):
                     okb, bad = False, (idx, got, want)
                     break
-            r.check(okb, cellbase + ("/Image" if as_image else "/ndarray"), "integrate(e_voxel) = effective voxel volume (voxel volume x depth/porosity weight) in the slot of its time step and component", shape=shape, factors=fac, geom=gname, wform=wform, index=None if bad is None else bad[0], got=None if bad is None else bad[1], want=None if bad is None else bad[2])
+            r.check(okb, cellbase + {False: "/ndarray", True: "/Image", "default-dims": "/Image-default-dims", "F": "/ndarray-F"}[as_image], "integrate(e_voxel) = effective voxel volume (voxel volume x depth/porosity weight) in the slot of its time step and component", shape=shape, factors=fac, geom=gname, wform=wform, index=None if bad is None else bad[0], got=None if bad is None else bad[1], want=None if bad is None else bad[2])
             if okb and n >= 2:
                 for k in range(len(idxs)):
                     i, j = idxs[k], idxs[(k + 1) % len(idxs)]
